@@ -22,8 +22,11 @@ NMerge == Cardinality({i \in 1 .. Len(hist) : hist[i].op = "merge"})
 \* the stream with id i as written into the n-th pushed file
 MStream(i, n, hp, tp) ==
     LET fam == CASE hp = "v6" -> "v6" [] hp = "mix" -> (IF i % 2 = 1 THEN "v6" ELSE "v4") [] OTHER -> "v4"
+        \* "u": the third stream brings two new hosts when one place is left (undo path, a second group behind a non-full one)
         c   == CASE hp = "p0" -> i - 1 [] hp = "p3" -> i + 2 [] hp = "v6" -> i - 1 [] hp = "mix" -> (IF i % 2 = 1 THEN i - 1 ELSE 0)
+                 [] hp = "u" -> (IF i <= 2 THEN i - 1 ELSE i)
         s   == CASE hp = "p0" -> i     [] hp = "p3" -> i + 3 [] hp = "v6" -> i     [] hp = "mix" -> (IF i % 2 = 1 THEN i ELSE 1)
+                 [] hp = "u" -> (IF i <= 2 THEN i ELSE i + 1)
         base == IF tp \in {"a2", "d2"} THEN 2 ELSE 0
         start == (base + (IF tp \in {"a0", "a2"} THEN i - 1 ELSE 3 - i)) * Sec + (n % 2)
         cap == 1 + (n % 2)
@@ -106,6 +109,20 @@ StepRegimes(W, F) ==                   \* one AddIndex(W, F)
    \cup (IF W.imports # <<>> /\ \E i \in 1 .. Len(F.imports) : IndexOf(AddImports(W.imports, F.imports), F.imports[i]) # i THEN {"import-ids-remapped"} ELSE {})
    \cup (IF \E g \in 1 .. Len(W2.groups) : \E g2 \in 1 .. (g - 1) : W2.groups[g].size = W2.groups[g2].size THEN {"merged-file-has-second-group-of-a-family"} ELSE {})
 
+\* the newest file of a merge becomes the writer's host groups as they are (slices of the reader's host section):
+\* does a later AddIndex append hosts to such a group although the same section continues with another group?
+RECURSIVE GrowsSharedGroup(_, _, _)
+GrowsSharedGroup(W, files, hazard) ==
+    IF files = <<>> THEN FALSE
+    ELSE LET mg == MapGroups(W.groups, Last(files), 0, <<>>)
+         IN (\E g \in hazard : g <= Len(W.groups) /\ mg.groups[g].len > W.groups[g].len)
+            \/ GrowsSharedGroup(AddIndex(W, Last(files)), SubSeq(files, 1, Len(files) - 1), hazard)
+SharedGroupRegime(files) ==
+    LET F1 == Last(files)
+        hazard == {g \in 1 .. Len(F1.hgs) : \E g2 \in (g + 1) .. Len(F1.hgs) : F1.hgs[g2].fam = F1.hgs[g].fam}
+    IN IF Len(files) >= 2 /\ hazard # {} /\ GrowsSharedGroup(AddIndex(NewWriter, F1), SubSeq(files, 1, Len(files) - 1), hazard)
+       THEN {"hosts-appended-to-group-sharing-the-readers-host-section"} ELSE {}
+
 RECURSIVE MergeRegimes(_, _)
 MergeRegimes(W, files) ==
     IF files = <<>> THEN {}
@@ -120,6 +137,7 @@ Regimes ==     \* evaluated in the state AFTER a merge: uses the history to rebu
              before == Replay(1, <<>>)
              k == Last(hist).from
          IN MergeRegimes(NewWriter, SubSeq(before, k, Len(before)))
+            \cup SharedGroupRegime(SubSeq(before, k, Len(before)))
             \cup (IF k > 1 THEN {"merge-keeps-older-prefix"} ELSE {"merge-whole-stack"})
             \cup (IF k = Len(before) THEN {"merge-single-file"} ELSE {})
             \cup (IF Len(before) - k + 1 >= 3 THEN {"merge-three-files"} ELSE {})
